@@ -33,7 +33,7 @@ TABLE = {
     ),
     "C06": dict(
         technique="exhaustive enumeration of short token sequences and of short literal strings + Hypothesis token-mutation, construct splicing, character-noise and directive-line fuzzing + coverage-guided campaigns (atheris/libFuzzer) with a committed corpus; outcome-class oracle",
-        text="Every token sequence up to length 3 (quick) / 4 and 5 over a reduced alphabet (thorough) after 8 context prefixes is parsed and its outcome classified; every string up to length 4 / 5 over three literal alphabets is parsed in two positions; beyond that, Hypothesis mutates valid programs at token level, splices constructs, generates character noise (incl. characters Python takes for digits or blanks) and # lines from hostile pieces, and 6 (quick) / 20 (thorough) coverage-guided campaigns of 12 000 / 600 000 executions run on the instrumented package, half from an empty corpus and half from the committed one (replayed without the fuzzer as well); every failure bucket is re-decided by the check itself. Complete inside the enumerated bounds, statistical outside them; absence of crashes on longer inputs is not established.",
+        text="Every token sequence up to length 3 (quick) / 4 and 5 over a reduced alphabet (thorough) after 8 context prefixes is parsed and its outcome classified; every string up to length 4 / 5 over three literal alphabets is parsed in two positions; beyond that, Hypothesis mutates valid programs at token level, splices constructs, generates character noise (incl. characters Python takes for digits or blanks) and # lines from hostile pieces, and 6 (quick) / 20 (thorough) coverage-guided campaigns of 12 000 / 150 000 executions run on the instrumented package, half from an empty corpus and half from the committed one (replayed without the fuzzer as well); every failure bucket is re-decided by the check itself. Complete inside the enumerated bounds, statistical outside them; absence of crashes on longer inputs is not established.",
         note="Trusted: the outcome classifier (vlib/oracle.py), a CPU-time alarm as the only non-termination detector, RecursionError tolerated above 100 tokens.",
         ref="DESIGN.md section 4, C06",
     ),
